@@ -8,7 +8,9 @@ use crate::util::*;
 use serde_json::{json, Value};
 use std::process::Command;
 
-pub const NAME_POOL: [&str; 18] = [
+pub const NAME_POOL: [&str; 20] = [
+    "\u{e9}",
+    "e\u{301}",
     "a",
     "A",
     "ab",
@@ -254,6 +256,7 @@ pub fn run(ctx: &mut Ctx) {
         Sp::new("<", ">", "tl", "m"),
         Sp::new("/* <", "> */", "removal-marker", "time-limited"), // swapped names
         Sp::new("[[", "]]", "期限", "印"),
+        Sp::new("<", ">", "mark", "marker"), // one configured name is a prefix of the other
     ];
     let cfgs = [
         Cfg::new("2020-06-15T12:00:00+00:00", "+00:00", &["feature1", "ab"]),
@@ -269,7 +272,8 @@ pub fn run(ctx: &mut Ctx) {
                     for comment in [None, Some("skip"), Some("please skip this"), Some("name='feature1'")] {
                         let mut attrs: Vec<(String, Option<String>)> = vec![("name".into(), Some(name.to_string()))];
                         if with_skip {
-                            attrs.push(("skip".into(), None));
+                            // a skip attribute is a skip attribute, with or without a value
+                            attrs.push(("skip".into(), if rank % 7 == 3 { Some(String::new()) } else if rank % 7 == 5 { Some("no".into()) } else { None }));
                         }
                         if let Some(c) = comment {
                             attrs.push(("c".into(), Some(c.to_string())));
